@@ -138,6 +138,10 @@ def run(P, R, tier):
     R.floor('OWN.readonly parameters', n_ro, 2)
     from ..engines import proto as _prd
     _prd.check_return_deps(P, R, 'gmm:e_step', pattern=r'^(data|machine)$')
+    from ..engines import proto as _pst2
+    for f2_ in P.all_funcs(['gmm']):
+        if f2_.cls is not None:
+            _pst2.check_standins(P, R, f2_.key)
 
 
 EXPLANATION += " Added after the seeded rounds: (DTYPE.raw) no product / square of the samples is computed in the dtype of the input array; (OWN.iadd-alias) `a += b` stores no array of b into a; (OPT) default statistics fields are selected when the argument is absent, not when it is given; (COVER.fold / COVER.pairs) the M-step folds every block's statistics, and a neighbour-pairing reduction keeps the unpaired element."
